@@ -5,6 +5,7 @@
   executed by the Lean AVM semantics (harness/groupcheck.py).
 -/
 import TealerModel.Group
+import TealerModel.Props.TieGroup
 namespace Tealer.C13
 open Tealer.Group
 
@@ -105,5 +106,17 @@ example :
     let t1 : GTxn := ⟨1, true, true, false, true, none, [(1, 2)]⟩
     let t2 : GTxn := ⟨2, true, false, false, true, some 0, []⟩
     groupVerdict .stateless a [t0, t1, t2] = [0, 1] ∧ groupVerdict .stateless a [t1, t0, t2] = [1, 0] := by decide
+
+/-- THE VERDICT LOOP IS THE PYTHON'S.  The body of `for group_txn in tealer.groups:` in
+    `detect_missing_tx_field_validations_group_complete` (eligibility by detector type, declared logic-sig, application and transaction
+    type; cleared by an own contract, by some member through the configured absolute index, by some member through its configured
+    offset - every `continue` and `break`), translated statement by statement from /repo's Python on this run
+    (Generated/GroupLoop.lean), reports exactly `Group.groupVerdict` - the function `C13_group_verdict_iff` and `C13_cleared_spec`
+    characterise - and outputs the group exactly when that list is not empty.  The three contract-level questions stay parameters
+    (`Answers`); `relItemsOf` is the table `fill_group_relative_indexes` builds (`C13_fill_inverse`). -/
+theorem C13_tie_verdict_loop (det : Group.DetType) (a : Group.Answers) (txns : List Group.GTxn) :
+    Generated.groupComplete det a (TieG.relItemsOf txns) txns =
+      (!(Group.groupVerdict det a txns).isEmpty, Group.groupVerdict det a txns) :=
+  TieG.group_tie det a txns
 
 end Tealer.C13
